@@ -30,7 +30,7 @@ I0 == [present |-> FALSE, cfg |-> NoCfg,
        vc |-> {}, st |-> NoStop, halted |-> FALSE,
        burst |-> 0, burstT |-> -1,
        preSince |-> -1,
-       inflight |-> {}, lastEv |-> "", note |-> "", why |-> "", readyAt |-> -1, owes |-> FALSE, cut |-> FALSE, hung |-> {}, verifyAt |-> -1]
+       inflight |-> {}, lastEv |-> "", note |-> "", why |-> "", readyAt |-> -1, owes |-> FALSE, cut |-> FALSE, hung |-> {}, verifyAt |-> -1, nbo |-> 0, nrs |-> 0]
 
 O0 == [scn |-> "", ended |-> TRUE, H |-> 1000000, TTL |-> 3000000, L |-> 0, PT |-> 5000000,
        rec |-> [k \in Keys |-> NoRec], tokens |-> {}, pend |-> {},
@@ -355,7 +355,14 @@ H_note(o, e) ==
       \* acquisition round timing (C17 clause b)
       v == IF e.name = "round_start" /\ (e.val < 10000000 \/ e.val > 100000000)
            THEN {V("C17", "round_jitter_outside_10_100ms", e.i, e)} ELSE {}
-  IN R(SetI(o, e.i, [x EXCEPT !.note = e.name]), v)
+      \* back-off of attempt k: 50 ms * 2^k within +/-10 %  (nanoseconds)
+      InWin(v0, b) == v0 >= b - b \div 10 /\ v0 <= b + b \div 10
+      v2 == IF e.name = "round_backoff" /\ ~(InWin(e.val, 50000000) \/ InWin(e.val, 100000000) \/ InWin(e.val, 200000000))
+            THEN {V("C17", "round_backoff_outside_window", e.i, e)} ELSE {}
+      nb == IF e.name = "round_backoff" THEN x.nbo + 1 ELSE x.nbo
+      nr == IF e.name = "round_start" THEN x.nrs + 1 ELSE x.nrs
+      v3 == IF nb > 3 * nr THEN {V("C17", "round_makes_more_than_four_attempts", e.i, e)} ELSE {}
+  IN R(SetI(o, e.i, [x EXCEPT !.note = e.name, !.nbo = nb, !.nrs = nr]), v \cup v2 \cup v3)
 
 H_disc(o, e) ==
   LET x == o.I[e.i] IN
